@@ -309,7 +309,7 @@ def execute(prog):
         except world.NeedMore:
             return None
 
-    real_os = lu.os
+    real_os = getattr(lu, "os", None)
     try:
         for op in prog["ops"]:
             out["ops"] += 1
@@ -372,7 +372,8 @@ def execute(prog):
                     sk = draw(lambda: lk.SigningKey.generate(curve, dev, hf),
                               dev)
                 else:
-                    lu.os = _OS(real_os, dev)
+                    if real_os is not None:
+                        lu.os = _OS(real_os, dev)
                     core.bump(out["probes"], "default_urandom_path")
                     try:
                         if name == "default_generate":
@@ -383,7 +384,8 @@ def execute(prog):
                             sk = draw(lambda: (eo.generate_private_key(),
                                                eo.private_key)[1], dev)
                     finally:
-                        lu.os = real_os
+                        if real_os is not None:
+                            lu.os = real_os
                 log.append((name, pol, len(dev.dev.log)))
                 if sk is None:
                     continue
@@ -393,6 +395,12 @@ def execute(prog):
                          "[1, n-1] (n=%d, policy %s)" % (d, n, pol))
                 used = dev.dev.consumed()
                 if not used:
+                    if name != "generate":
+                        # the default path did not go through the shimmed
+                        # ecdsa.util.os.urandom (e.g. imported differently):
+                        # no seam, no verdict
+                        core.bump(out["probes"], "default_path_not_intercepted")
+                        continue
                     fail("stream/" + name, "a key was generated without "
                          "drawing from the supplied entropy source")
                 rep = world.SimEntropy("scripted", script=used)
@@ -426,17 +434,22 @@ def execute(prog):
                 if name == "sign":
                     sig = draw(lambda: do_sign(dev), dev)
                 else:
-                    lu.os = _OS(real_os, dev)
+                    if real_os is not None:
+                        lu.os = _OS(real_os, dev)
                     core.bump(out["probes"], "default_urandom_path")
                     try:
                         sig = draw(lambda: do_sign(None), dev)
                     finally:
-                        lu.os = real_os
+                        if real_os is not None:
+                            lu.os = real_os
                 log.append((name, pol, len(dev.dev.log)))
                 if sig is None:
                     continue
                 used = dev.dev.consumed()
                 if not used:
+                    if name != "sign":
+                        core.bump(out["probes"], "default_path_not_intercepted")
+                        continue
                     fail("stream/" + name, "a signature was made without "
                          "drawing the nonce from the entropy source")
                 rep = world.SimEntropy("scripted", script=used)
@@ -509,7 +522,8 @@ def execute(prog):
         v.v["detail"] = dict(op=op, info=v.v.get("detail"))
         out["violation"] = v.v
     finally:
-        lu.os = real_os
+        if real_os is not None:
+            lu.os = real_os
     out["digest"] = core.digest_of(log)
     out["steps"] = sum(len(d.log) for d in devices)   # entropy requests
     return out
